@@ -290,3 +290,115 @@ impl CellBuffer {
         },
     ],
 }
+
+# ---------------------------------------------------------------------------------------------
+# text.rs : CellText::can_merge / merge for every content (T2 / T3), columns() uninterpreted
+# ---------------------------------------------------------------------------------------------
+UNITS["celltext"] = {
+    "prelude": """
+#[derive(Clone, Copy, PartialEq, Eq)]
+pub struct Cell { pub x: i32, pub y: i32 }
+
+pub struct CellText { pub start: Cell, pub content: String }
+
+/// the number of cells a content occupies (CellText::columns): uninterpreted here, its meaning is the
+/// bounded obligation T2.celltext_columns_all_chars
+pub uninterp spec fn spec_columns(content: Seq<char>) -> int;
+
+/// `format!("{}{}", a, b)` (T5: the macro call is rewritten to this external function)
+#[verifier::external_body]
+fn concat(a: &String, b: &String) -> (r: String)
+    ensures r@ == a@ + b@,
+{ unimplemented!() }
+
+impl CellText {
+    pub fn new(start: Cell, content: String) -> (r: Self)
+        ensures r.start == start, r.content@ == content@,
+    { CellText { start, content } }
+
+    #[verifier::external_body]
+    fn columns(&self) -> (r: i32)
+        ensures r as int == spec_columns(self.content@), 0 <= r <= 0x100000,
+    { unimplemented!() }
+
+    pub open spec fn valid(&self) -> bool {
+        0 <= self.start.x < 0x20000 && 0 <= self.start.y < 0x20000
+    }
+
+    /// a is directly followed by b on the same row
+    pub open spec fn then(a: &CellText, b: &CellText) -> bool {
+        a.start.y == b.start.y && a.start.x + spec_columns(a.content@) == b.start.x
+    }
+""",
+    "epilogue": "}",
+    "assumes": [
+        "T4: CellText::columns is external_body with an uninterpreted result in [0, 2^20] (its meaning: T2.celltext_columns_all_chars)",
+        "T5: `format!(\"{}{}\", a, b)` is rewritten to `concat(&a, &b)`, an external function whose result is the concatenation "
+        "(std formatting of two Strings, assumed)",
+        "Cell and CellText are re-declared with the same fields (start: Cell {x, y: i32}, content: String)",
+    ],
+    "min_verified": 2,
+    "functions": [
+        {
+            "name": "can_merge", "file": "buffer/fragment_buffer/fragment/text.rs", "within": r"impl CellText \{",
+            "sig_re": r"pub\(crate\) fn can_merge\(&self, other: &Self\) -> bool",
+            "header": "pub(crate) fn can_merge(&self, other: &Self) -> (r: bool)",
+            "spec": "    requires self.valid(), other.valid(),\n"
+                    "    ensures r == (Self::then(self, other) || Self::then(other, self)),",
+        },
+        {
+            "name": "merge", "file": "buffer/fragment_buffer/fragment/text.rs", "within": r"impl CellText \{",
+            "sig_re": r"pub\(crate\) fn merge\(&self, other: &Self\) -> Option<Self>",
+            "header": "pub(crate) fn merge(&self, other: &Self) -> (r: Option<Self>)",
+            "spec": "    requires self.valid(), other.valid(),\n"
+                    "    ensures\n"
+                    "        r.is_some() == (Self::then(self, other) || Self::then(other, self)),\n"
+                    "        r.is_some() && self.start.x < other.start.x ==> r.unwrap().start == self.start && r.unwrap().content@ == self.content@ + other.content@,\n"
+                    "        r.is_some() && !(self.start.x < other.start.x) ==> r.unwrap().start == other.start && r.unwrap().content@ == other.content@ + self.content@,\n"
+                    "        // the statement's form: the text that comes first on the row comes first in the content\n"
+                    "        Self::then(self, other) && spec_columns(self.content@) > 0 ==> r.is_some() && r.unwrap().start == self.start && r.unwrap().content@ == self.content@ + other.content@,\n"
+                    "        Self::then(other, self) && spec_columns(other.content@) > 0 ==> r.is_some() && r.unwrap().start == other.start && r.unwrap().content@ == other.content@ + self.content@,",
+            "subst": [(r'format!\("\{\}\{\}", ([\w\.]+), ([\w\.]+)\)', r"concat(&\1, &\2)")],
+        },
+    ],
+}
+
+# ---------------------------------------------------------------------------------------------
+# contacts.rs : endorse_rects is a partition, for any number of groups (G2)
+# ---------------------------------------------------------------------------------------------
+UNITS["endorse_rects"] = {
+    "prelude": """
+pub struct Fragment { _o: u8 }
+pub struct Span { _o: u8 }
+pub struct FragmentSpan { _o: u8 }
+pub struct Contacts { _o: u8 }
+pub struct Endorse<T, E> { pub accepted: Vec<T>, pub rejects: Vec<E> }
+
+impl FragmentSpan {
+    #[verifier::external_body]
+    pub fn new(span: Span, fragment: Fragment) -> (r: FragmentSpan) { unimplemented!() }
+}
+
+impl Contacts {
+    #[verifier::external_body]
+    pub(crate) fn endorse_rect(&self) -> (r: Option<Fragment>) { unimplemented!() }
+
+    #[verifier::external_body]
+    pub fn span(&self) -> (r: Span) { unimplemented!() }
+""",
+    "epilogue": "}",
+    "assumes": [
+        "T4: Fragment, Span, FragmentSpan, Contacts are opaque; Contacts::endorse_rect / span and FragmentSpan::new are external_body (any result)",
+        "vstd's specification of Vec::push and of iterating a Vec by value",
+    ],
+    "min_verified": 1,
+    "functions": [
+        {
+            "name": "endorse_rects", "file": "buffer/cell_buffer/contacts.rs", "within": r"impl Contacts \{",
+            "sig_re": r"pub\(crate\) fn endorse_rects\( contacts: Vec<Contacts>, \) -> Endorse<FragmentSpan, Contacts>",
+            "header": "pub(crate) fn endorse_rects(contacts: Vec<Contacts>) -> (r: Endorse<FragmentSpan, Contacts>)",
+            "spec": "    ensures r.accepted.len() + r.rejects.len() == contacts.len(),",
+            "loops": {0: {"iter": "it", "clauses": "            invariant accepted.len() + rejects.len() == it.index@,"}},
+        },
+    ],
+}
